@@ -235,7 +235,7 @@ theorem queueTips_spec (ctx : TCtx E nodes tips ends) :
             fun x hx hg => counted_of_depth ctx h.n h.depth hx (by have := hmg t httip; omega)
           have hnh : ¬ Hid E ends t := by
             intro hh
-            obtain ⟨c', hc1, hc2, hc3⟩ := ctx.hidden_child (tips := tips) hh hte
+            obtain ⟨c', hc1, hc2, hc3⟩ := ctx.hid_walk t hh hrt hte
             have hc'c := hcounted c' hc2 (ctx.gen_le_walk hc3)
             have hpos := cnt_pos (nodes := nodes) (s := s) (outp := []) (ctx.rch_nodes hc2) hc'c hc3 (by simp)
             have hdeg := h.n.deg_ok t (by simp)
@@ -535,6 +535,47 @@ theorem selectPQ_lawful {K : Type} (le : K → K → Bool) : (selectPQ le).Lawfu
   pop_none := fun s h => extractMax_none le s h
   pop_some := fun s e s' h => extractMax_perm le s e s' h
 
+theorem extractMax_max {K : Type} (le : K → K → Bool) (htot : ∀ a b, le a b = false → le b a = true)
+    (htrans : ∀ a b c, le a b = true → le b c = true → le a c = true) :
+    ∀ (l : List (K × Nat)) e l', extractMax le l = some (e, l') → ∀ x, x ∈ l → le x.1 e.1 = true := by
+  intro l
+  induction l with
+  | nil => intro e l' h; cases h
+  | cons y rest ih =>
+    intro e l' h x hx
+    have hrefl : ∀ a, le a a = true := by
+      intro a
+      cases h' : le a a with
+      | true => rfl
+      | false => have := htot a a h'; rw [h'] at this; cases this
+    unfold extractMax at h
+    cases hr : extractMax le rest with
+    | none =>
+      rw [hr] at h
+      have := extractMax_none _ rest hr
+      subst this
+      cases h
+      simp only [List.mem_singleton] at hx
+      subst hx
+      exact hrefl _
+    | some r =>
+      obtain ⟨m, rest'⟩ := r
+      rw [hr] at h
+      dsimp only at h
+      have hm := ih m rest' hr
+      by_cases hle : le m.1 y.1 = true
+      · rw [if_pos hle] at h
+        cases h
+        cases List.mem_cons.mp hx with
+        | inl h' => subst h'; exact hrefl _
+        | inr h' => exact htrans _ _ _ (hm x h') hle
+      · rw [if_neg hle] at h
+        cases h
+        have hym : le y.1 e.1 = true := htot _ _ (by simpa using hle)
+        cases List.mem_cons.mp hx with
+        | inl h' => subst h'; exact hym
+        | inr h' => exact hm x h'
+
 theorem extractMax_gen : ∀ (l : List (GenTime × Nat)) e l',
     extractMax GenTime.le l = some (e, l') → ∀ x, x ∈ l → x.1.1 ≤ e.1.1 := by
   intro l
@@ -597,6 +638,6 @@ theorem sample_ctx : TCtx { g := sampleDag, qg := selectPQ GenTime.le, qd := sel
   qg_lawful := selectPQ_lawful _
   qg_max := fun s e s' h => extractMax_gen s e s' h
   qd_lawful := selectPQ_lawful _
-  fp_ends := by intro h; cases h
+  hid_walk := hidWalk_of_fp_ends (by intro h; cases h)
 
 end GixModel.C47
